@@ -118,8 +118,10 @@ Definition last_opt {X} (l : list X) : option X := match rev l with [] => None |
 (* frame.py:5704-5726.  The array of a new column is built as np.array(values, dtype=dtype) where
    dtype is the source column's dtype unless the LAST group lacks the target (then it is resolved
    with the fill's dtype).  castfill j = what np.array([fill], dtype=<dtype of source column j>)
-   shows (an oracle of NumPy casting, computed by NumPy itself), or the exception it raises. *)
-Definition M_unstack (fill : A) (castfill : list (res A)) (f : sframe A (G * T) C) : res (sframe A G (C * T)) :=
+   shows (an oracle of NumPy casting, computed by NumPy itself), or the exception it raises.
+   cast_src = "the code still takes dtype from the last group visited" (read from the source on every
+   run, Gen/Gen_c20.v gen_unstack_dtype_from_last_group); false once dtype is only ever widened. *)
+Definition M_unstack (cast_src : bool) (fill : A) (castfill : list (res A)) (f : sframe A (G * T) C) : res (sframe A G (C * T)) :=
   let targets := uniq teqb (map snd (sf_rows f)) in
   let groups := uniq geqb (map fst (sf_rows f)) in
   let maps := map (fun g => row_map (sf_rows f) g) groups in
@@ -130,7 +132,7 @@ Definition M_unstack (fill : A) (castfill : list (res A)) (f : sframe A (G * T) 
       let hits := map (lookup_last teqb t) maps in
       let widened := match last_opt hits with Some None => true | _ => false end in
       let has_fill := existsb (fun h => match h with None => true | Some _ => false end) hits in
-      match (if has_fill && negb widened then nth j castfill (Ok fill) else Ok fill) with
+      match (if cast_src && has_fill && negb widened then nth j castfill (Ok fill) else Ok fill) with
       | Err e => Err e
       | Ok fv => Ok (map (fun h => match h with
                                    | Some i => nth j (nth i (sf_cells f) []) fill
